@@ -23,3 +23,25 @@ Print Assumptions C12_chain_top_is_max.
 Theorem C12_telescoping_max : forall (r : list Z) (d m : Z), Sorted.StronglySorted Z.lt (d :: r) -> In m (d :: r) -> (d + steps (fun v : Z => v <=? m) d r)%Z = m.
 Proof. exact (@telescoping_max). Qed.
 Print Assumptions C12_telescoping_max.
+
+From NGO Require Import Syntax.Ast Sem.Sym Sem.Sat Gen.Tables Link.MinMaxSpec.
+
+Theorem C12_dispatch_table : forall (sg : sign) (f : aggfun) (c : cmp), minmax_simple_dispatch sg f c = true <-> sg = NoSign /\ (f = FMax /\ (c = CLt \/ c = CLe) \/ f = FMin /\ (c = CGt \/ c = CGe)) \/ sg = Neg /\ (f = FMin /\ (c = CLt \/ c = CLe) \/ f = FMax /\ (c = CGt \/ c = CGe)).
+Proof. exact (@dispatch_table_proof). Qed.
+Print Assumptions C12_dispatch_table.
+
+Theorem C12_dispatch_never_double_negation : forall (f : aggfun) (c : cmp), minmax_simple_dispatch NegNeg f c = false.
+Proof. exact (@dispatch_never_double_negation_proof). Qed.
+Print Assumptions C12_dispatch_never_double_negation.
+
+Theorem C12_max_lower_bound : forall sym_lt : sym -> sym -> Prop, sym_order sym_lt -> forall (S : tupset) (w : sym) (c : cmp), c = CLt \/ c = CLe -> w <> SInf -> (exists m : sym, heads_of S m /\ (forall e : sym, heads_of S e -> e = m \/ sym_lt e m)) \/ (forall tv : list sym, ~ S tv) -> (exists v : sym, agg_value sym_lt FMax S v /\ cmp_holds sym_lt c w v) <-> (exists e : sym, heads_of S e /\ cmp_holds sym_lt c w e).
+Proof. exact (@max_lower_bound_proof). Qed.
+Print Assumptions C12_max_lower_bound.
+
+Theorem C12_finite_has_max : forall sym_lt : sym -> sym -> Prop, sym_order sym_lt -> forall l : list sym, l <> nil -> exists m : sym, In m l /\ (forall e : sym, In e l -> e = m \/ sym_lt e m).
+Proof. exact (@finite_has_max). Qed.
+Print Assumptions C12_finite_has_max.
+
+Theorem C12_negated_simple_translation_refuted : forall sym_lt : sym -> sym -> Prop, sym_order sym_lt -> let S_H := fun _ : list sym => False in let S_T := fun tv : list sym => tv = SNum 0 :: nil in ~ (exists v : sym, agg_value sym_lt FMin S_T v /\ cmp_holds sym_lt CLt (SNum 1) v) /\ ~ (exists e : sym, (exists tv : list sym, S_H tv /\ hd_error tv = Some e) /\ ~ cmp_holds sym_lt CLt (SNum 1) e).
+Proof. exact (@negated_simple_translation_refuted_proof). Qed.
+Print Assumptions C12_negated_simple_translation_refuted.
